@@ -1151,6 +1151,24 @@ def split_tuple_assignments(tree):
             i = 0
             while i < len(blk):
                 st = blk[i]
+                # a, b, c = (f(k) for k in ('x', 'y', 'z')): the comprehension over a literal sequence is the tuple it yields
+                if isinstance(st, ast.Assign) and len(st.targets) == 1 and isinstance(st.targets[0], ast.Tuple) \
+                        and isinstance(st.value, (ast.GeneratorExp, ast.ListComp)) and len(st.value.generators) == 1:
+                    g_ = st.value.generators[0]
+                    if not g_.ifs and not g_.is_async and isinstance(g_.target, ast.Name) and isinstance(g_.iter, (ast.Tuple, ast.List)) \
+                            and all(isinstance(e_, ast.Constant) for e_ in g_.iter.elts) and len(g_.iter.elts) == len(st.targets[0].elts):
+                        var_ = g_.target.id
+
+                        class _K(ast.NodeTransformer):
+                            def __init__(self, c):
+                                self.c = c
+
+                            def visit_Name(self, node):
+                                if node.id == var_ and isinstance(node.ctx, ast.Load):
+                                    return ast.copy_location(ast.Constant(value=self.c), node)
+                                return node
+                        st.value = ast.copy_location(ast.Tuple(elts=[_K(e_.value).visit(copy.deepcopy(st.value.elt)) for e_ in g_.iter.elts], ctx=ast.Load()), st.value)
+                        ast.fix_missing_locations(st)
                 if isinstance(st, ast.Assign) and len(st.targets) == 1 and isinstance(st.targets[0], ast.Tuple) and isinstance(st.value, ast.Tuple) \
                         and len(st.targets[0].elts) == len(st.value.elts) and all(isinstance(t, ast.Name) for t in st.targets[0].elts) \
                         and not any(isinstance(v, ast.Starred) for v in st.value.elts):
@@ -1252,6 +1270,76 @@ def rename_accumulators(tree):
                         n += 1
                         changed = True
                         break
+    return n
+
+
+# ------------------------------------------------------------------ P20 a local that only names a field of another local
+def field_temporaries(tree):
+    """`x = b['k']` / `x = b.k` at the top level of a function, x assigned only there, b (a local or parameter) neither rebound nor
+    changed in place afterwards: x is replaced by the field it names (coefficients unpacked into A, Z, X)."""
+    n = 0
+    for fn in [f for f in ast.walk(tree) if isinstance(f, ast.FunctionDef)]:
+        if any(isinstance(x, (ast.FunctionDef, ast.Lambda, ast.ClassDef)) for x in ast.walk(fn) if x is not fn):
+            continue
+        params = {a.arg for a in fn.args.args + fn.args.kwonlyargs + fn.args.posonlyargs}
+        shared = {g for x in ast.walk(fn) if isinstance(x, (ast.Global, ast.Nonlocal)) for g in x.names}
+        stores = {}
+        for x in ast.walk(fn):
+            if isinstance(x, ast.Name) and isinstance(x.ctx, (ast.Store, ast.Del)):
+                stores.setdefault(x.id, []).append(x)
+        for st in list(fn.body):
+            if not (isinstance(st, ast.Assign) and len(st.targets) == 1 and isinstance(st.targets[0], ast.Name)):
+                continue
+            x, v = st.targets[0].id, st.value
+            if x in params or x in shared or len(stores.get(x, [])) != 1:
+                continue
+            # a chain of constant / name subscripts and attributes over one root name: T[key]['A'], row.code
+            chain, names_used = v, set()
+            okc = isinstance(v, (ast.Subscript, ast.Attribute))
+            while isinstance(chain, (ast.Subscript, ast.Attribute)):
+                if isinstance(chain, ast.Subscript):
+                    if isinstance(chain.slice, ast.Name):
+                        names_used.add(chain.slice.id)
+                    elif not isinstance(chain.slice, ast.Constant):
+                        okc = False
+                chain = chain.value
+            if not okc or not isinstance(chain, ast.Name) or chain.id == 'self':
+                continue
+            b = chain.id
+            if b == x or x in names_used:
+                continue
+            if b in shared:
+                # a module global as root: nothing called afterwards may rebind it
+                rebinders = {f.name for f in ast.walk(tree) if isinstance(f, ast.FunctionDef) and any(
+                    isinstance(y, ast.Global) and b in y.names for y in ast.walk(f))}
+                called_later = {c.func.id for later_st in fn.body[fn.body.index(st) + 1:] for c in ast.walk(later_st)
+                                if isinstance(c, ast.Call) and isinstance(c.func, ast.Name)}
+                if called_later & rebinders:
+                    continue
+            if any(s_.lineno >= st.lineno for nm_ in ({b} | names_used) for s_ in stores.get(nm_, [])):
+                continue
+            later = [y for later_st in fn.body[fn.body.index(st) + 1:] for y in ast.walk(later_st)]
+            mutated = any(
+                (isinstance(y, (ast.Subscript, ast.Attribute)) and isinstance(y.ctx, (ast.Store, ast.Del)) and isinstance(y.value, ast.Name) and y.value.id == b)
+                or (isinstance(y, ast.Call) and isinstance(y.func, ast.Attribute) and isinstance(y.func.value, ast.Name) and y.func.value.id == b
+                    and y.func.attr in MUTATORS)
+                or (isinstance(y, ast.Call) and any(isinstance(a, ast.Name) and a.id == b for a in y.args))
+                for y in later)
+            if mutated:
+                continue
+            for y in later:
+                if isinstance(y, ast.Name) and y.id == x and isinstance(y.ctx, ast.Load):
+                    pass
+            class _T(ast.NodeTransformer):
+                def visit_Name(self, node):
+                    if node.id == x and isinstance(node.ctx, ast.Load):
+                        return ast.copy_location(copy.deepcopy(v), node)
+                    return node
+            idx = fn.body.index(st)
+            for k in range(idx + 1, len(fn.body)):
+                fn.body[k] = _T().visit(fn.body[k])
+            fn.body.remove(st)
+            n += 1
     return n
 
 
@@ -1723,6 +1811,7 @@ def normalise_source(src, rel, baseline, cf=None, lookups=True, renames=None, fo
         get_default_to_if(tree)
         DictLiteralGet().visit(tree)
     rename_accumulators(tree)
+    field_temporaries(tree)
     if split:
         case_split_kinds(tree)
     if cf:
